@@ -446,16 +446,38 @@ func X25519(scalar, u []byte) []byte {
 	k[0] &= 248
 	k[31] &= 127
 	k[31] |= 64
-	kk := LE(k)
 	uu := LE(u)
 	uu.SetBit(uu, 255, 0)
-	uu.Mod(uu, P)
+	return ToLE(Ladder(LE(k), uu), 32)
+}
+
+// TwistSubgroupOrder is the prime order of the large subgroup of the quadratic twist
+// (the twist has 2(p+1) - 8L = 4 * TwistSubgroupOrder points).
+func TwistSubgroupOrder() *big.Int {
+	n := new(big.Int).Add(P, big.NewInt(1))
+	n.Lsh(n, 1)
+	n.Sub(n, new(big.Int).Lsh(L, 3))
+	return n.Rsh(n, 2)
+}
+
+// Ladder is the raw Montgomery ladder: the u coordinate of [k]P for any integer 0 <= k < 2^256,
+// without clamping (0 stands for the point at infinity).
+func Ladder(kk, uu *big.Int) *big.Int {
+	x2, z2 := LadderXZ(kk, uu)
+	e := new(big.Int).Sub(P, two)
+	return mul(x2, new(big.Int).Exp(z2, e, P))
+}
+
+// LadderXZ returns the projective result (X : Z) of the raw ladder; Z = 0 exactly for the point
+// at infinity (u = 0 with Z != 0 is the point of order two).
+func LadderXZ(kk, uu *big.Int) (*big.Int, *big.Int) {
+	uu = new(big.Int).Mod(uu, P)
 	a24 := big.NewInt(121665)
 	x1 := uu
 	x2, z2 := big.NewInt(1), big.NewInt(0)
 	x3, z3 := new(big.Int).Set(uu), big.NewInt(1)
 	swap := uint(0)
-	for t := 254; t >= 0; t-- {
+	for t := 255; t >= 0; t-- {
 		kt := kk.Bit(t)
 		swap ^= kt
 		if swap == 1 {
@@ -483,9 +505,7 @@ func X25519(scalar, u []byte) []byte {
 		x2, x3 = x3, x2
 		z2, z3 = z3, z2
 	}
-	e := new(big.Int).Sub(P, two)
-	r := mul(x2, new(big.Int).Exp(z2, e, P))
-	return ToLE(r, 32)
+	return x2, z2
 }
 
 // EdToMontU returns (1+y)/(1-y) mod p as 32 canonical bytes; 0 when y = 1.
